@@ -111,6 +111,10 @@ fn sort_strings(v: &mut Vec<String>)
 // ------------------------------------------------------------------------------ the clock
 #[verifier::external_body] pub struct RestOfConfig { _p: u8 }
 #[verifier::external_body] pub struct RestOfContext { _p: u8 }
+impl RestOfContext {
+    /// the seed the context's random generator was last (re)initialised with (Pcg32::seed_from_u64: assumed deterministic)
+    pub uninterp spec fn rng_seed(&self) -> u64;
+}
 pub struct TransformConfig { pub seed: u64, pub use_local_styles: bool, pub rest: RestOfConfig }
 pub struct TransformerContext { pub local_style_id: Option<String>, pub config: TransformConfig, pub rest: RestOfContext }
 /// R-abstract: the statements that read SystemTime::now() and format the randomised id
@@ -118,12 +122,15 @@ pub struct TransformerContext { pub local_style_id: Option<String>, pub config: 
 fn clock_derived_id() -> String { unimplemented!() }
 impl TransformerContext {
     #[verifier::external_body]
-    pub fn seed_rng(&mut self, seed: u64) ensures final(self).local_style_id == old(self).local_style_id, final(self).config == old(self).config { unimplemented!() }
+    pub fn seed_rng(&mut self, seed: u64)
+        ensures final(self).local_style_id == old(self).local_style_id, final(self).config == old(self).config, final(self).rest.rng_seed() == seed
+    { unimplemented!() }
 //@item src/context.rs :: impl TransformerContext :: fn set_config
 //@ cut[R-abstract] <<<            let now_seed = SystemTime::now()>>> .. <<<self.local_style_id = Some(format!("svgdx-{:08x}", rng.random::<u32>()))>>> => <<<            self.local_style_id = Some(clock_derived_id())>>>
 //@ ensures
 //@ - !config.use_local_styles ==> final(self).local_style_id is None     @@C06.clock.local_only
 //@ - final(self).config == config
+//@ - final(self).rest.rng_seed() == config.seed     @@C06.rng.seeded_from_config
 //@end
 }
 } // verus!
